@@ -315,9 +315,9 @@ func init() {
 		Rule: "rapid-generated programs (1..20 steps) of push batches mixing native Stacks, empty stacks, alias values (with/without String), pointers to aliases/Stacks, Conditions (plain, holding a stack, alias), primitives, slices and nil, " +
 			"interleaved with SetNoNesting(true/false/toggle), Pop and Remove, on Stacks of every kind (with/without capacity) and on Conditions (SetExpression). Model: ordered list + flag; after every step Len/Index* (identity), CanNest()==!flag, " +
 			"IsNesting()==exists stack-like element. non-trivial = a batch with >=1 stack-like and >=1 other value pushed while the flag is set, after a stack was pushed while it was clear (Condition side: a refused stack after an accepted expression); distinct = distinct case JSON",
-		Gen:    genC13,
-		Run:    runC13,
-		Floors: map[string]float64{"mixed-batch-while-set-after-stack-while-clear": 0.05, "cond-side": 0.1, "toggle-form-2": 0.1},
+		Gen:         genC13,
+		Run:         runC13,
+		Floors:      map[string]float64{"mixed-batch-while-set-after-stack-while-clear": 0.05, "cond-side": 0.1, "toggle-form-2": 0.1},
 		Assumptions: []string{"no push policy is installed (the docs hand control to the policy when one is)"},
 	})
 }
